@@ -85,6 +85,29 @@ pub fn time_pool() -> Vec<i64> {
     v
 }
 
+/// magnitudes at powers of two counted in *every* unit (milliseconds, seconds, minutes, hours, days), +- one
+/// microsecond and +- one unit: 32-bit "whole seconds / minutes" fast paths break exactly there (2^31 s = 24855 d
+/// 03:14:08, 2^32 s = 49710 d 06:28:16, 2^32 min = 2982616 d 04:16, Y2038, Y2106 ...).
+pub fn unit_pow2() -> Vec<i64> {
+    let mut v = vec![];
+    for (unit, lo, hi) in [(1_000i64, 28u32, 54u32), (1_000_000, 18, 44), (60_000_000, 12, 38), (3_600_000_000, 6, 32), (DAY_US, 2, 27)] {
+        for j in lo..hi {
+            let base = match unit.checked_mul(1i64 << j) {
+                Some(b) => b,
+                None => continue,
+            };
+            for e in [-unit, -1, 0, 1, unit - 1, unit, 250_000] {
+                if let Some(x) = base.checked_add(e) {
+                    v.push(x);
+                }
+            }
+        }
+    }
+    v.sort();
+    v.dedup();
+    v
+}
+
 /// times of day at bit-structured positions: k * 2^j (+-1) microseconds after midnight and before the next
 /// midnight. Narrowing casts and shifts in day/time splitting code go wrong exactly at such values.
 pub fn bit_times() -> Vec<i64> {
@@ -95,6 +118,16 @@ pub fn bit_times() -> Vec<i64> {
             for e in [-1i64, 0, 1] {
                 v.push(x + e);
                 v.push(DAY_US - x + e);
+            }
+        }
+    }
+    // powers of two counted in seconds and minutes
+    for j in 0..17u32 {
+        for e in [-1i64, 0, 1, 999_999, 1_000_000] {
+            v.push((1i64 << j) * 1_000_000 + e);
+            v.push(DAY_US - (1i64 << j) * 1_000_000 + e);
+            if j < 11 {
+                v.push((1i64 << j) * 60_000_000 + e);
             }
         }
     }
@@ -117,6 +150,10 @@ pub fn ts_pool() -> Vec<i64> {
     }
     for k in 10..58 {
         v.extend([(1i64 << k) - 1, 1i64 << k, (1i64 << k) + 1, -(1i64 << k) - 1, -(1i64 << k), -(1i64 << k) + 1]);
+    }
+    for x in unit_pow2() {
+        v.push(x);
+        v.push(-x);
     }
     v.extend([TS_MIN, TS_MIN + 1, TS_MAX, TS_MAX - 1, -1, 0, 1, (1i64 << 53) - 1, 1i64 << 53, (1i64 << 53) + 1, -(1i64 << 53), -(1i64 << 53) - 1, ORA_MAX, ORA_MAX + 1, ORA_MAX - 1]);
     v.retain(|x| (TS_MIN..=TS_MAX).contains(x));
@@ -146,6 +183,7 @@ pub fn dt_pool() -> Vec<i64> {
     for k in 2..63 {
         v.extend([(1i64 << k) - 1, 1i64 << k, (1i64 << k) + 1]);
     }
+    v.extend(unit_pow2());
     let mut p = 10i64;
     while p < DT_LIM {
         v.extend([p - 1, p, p + 1]);
